@@ -23,6 +23,13 @@ Definition ok_reply {E} (g : list E) : rdres E := RdData g None.
 Definition fits {E} (enc : E -> list N) (ds : list E) (count : N) : Prop :=
   Forall (fun d => blen (enc d) <= count) ds.
 
+(* NewFixedReaddir(codec, ds) lists ds *)
+Lemma fixed_lists {E} (ds : list E) : lists_script [BOk ds] ds.
+Proof.
+  destruct ds as [|d r]; [apply LS_empty|].
+  rewrite <- (app_nil_r (d :: r)) at 2. apply LS_batch; [discriminate|apply LS_end].
+Qed.
+
 Lemma read_bad_offset {E} (enc : E -> list N) (st : rdst E) count off :
   r_off st <> off -> read enc st count off = (RdBadOff, st).
 Proof.
